@@ -1,17 +1,105 @@
-"""What MANIFEST.json claims per property.  Edited by hand as units are added; gen_manifest.py renders it."""
-TECH_KANI = "contract-based deductive verification: requires/ensures harnesses on the real functions, discharged by Kani/CBMC (counterexamples replayed natively)"
-TECH_BOTH = TECH_KANI + "; leaf functions lifted mechanically each run and discharged by Verus/Z3"
+"""What MANIFEST.json claims per property.  Edited by hand as units are added; gen_manifest.py renders it.
+
+category `proof` only where every obligation that carries the property's kernel is *complete* (no bound on any
+input of the contracted function); where bounded-buffer / bounded-string units carry it, the category is `other`
+and the text says "bounded"."""
+TECH_KANI = "contract-based deductive verification: requires/ensures harnesses on the real functions of /repo, discharged by Kani/CBMC (counterexamples replayed natively with cargo kani playback)"
+
+COMMON_TRUST = ("Trusted: rustc + Kani 0.68 MIR->goto translation, CBMC 6.11; the spec functions in /verif/spec (oracle, written from the D-Bus "
+                "specification); alloc::fmt::format, Signature::clone and str::to_string on error arms replaced by stubs (error payloads are not part "
+                "of any contract); contract stubs of callees are justified by the callee's own unit in the same run. ")
 
 CLAIMED = {
     "C01": {
         "category": "proof",
-        "technique": TECH_BOTH,
-        "text": "Each mechanism of the D-Bus encoder named in the anchors is put under a contract stated against spec functions written from the D-Bus specification, and the contract is discharged for all inputs of that function by Kani/CBMC (bit-precise). Nesting of arbitrary values rests on the per-mechanism contracts plus a paper lemma (generic T: Serialize composition cannot be given a contract).",
-        "note": "Trusted: Kani/CBMC, spec functions in /verif/spec, fmt::format stub. Bounded units (strings) are reported separately and never counted as discharged proofs.",
-        "design_ref": "DESIGN.md §4 C01",
+        "technique": TECH_KANI,
+        "text": "Each leaf mechanism of the D-Bus encoder named in the anchors is put under a contract stated against spec functions written from "
+                "the D-Bus marshalling table, and discharged for ALL inputs of that function (any message position, any bytes-written count, both "
+                "byte orders, any value, any writer position in the window): padding_for_n_bytes, SerializerCommon::add_padding/write, the nine "
+                "fixed-size encoders through the real serde::Serializer methods, UNIX_FD index/count, serialize_seq header (length slot, "
+                "first-element padding even when empty, depth, signature switch) and SeqSerializer::end_seq (back-patched length excludes the first "
+                "padding; only the slot is written) -- every unit with a byte-exact frame obligation. String encoders are bounded (ASCII, L<=4 quick) "
+                "and reported separately, never as discharged proofs. NOT covered: struct/dict-entry/variant mechanisms, Serialize impls of "
+                "Value/Array/Dict/Structure, FdList::Fds (dup(2)); nesting of arbitrary values rests on the per-mechanism contracts plus a paper lemma.",
+        "note": COMMON_TRUST + "Writer is a Cursor over a 16..32-byte window that is large enough for everything the unit writes; the fd count is assumed < u32::MAX. "
+                "Termination not verified. Bounded units (strings) are counted in bounded_obligations only.",
+        "design_ref": "DESIGN.md §4 C01, §9",
+    },
+    "C03": {
+        "category": "other",
+        "technique": TECH_KANI + "; bounded-buffer",
+        "text": "Bounded contract proof: every decoder mechanism named in the anchors (parse_padding, next_slice, bool and the other fixed-size "
+                "decoders, UNIX_FD index, strings s/g with terminator and interior-NUL rules, ArrayDeserializer::new/next_element, dict and struct "
+                "framing, variant signature + payload staging) is called on the real dbus::Deserializer over a fully symbolic buffer of 5..16 bytes "
+                "at any message offset and byte order; `Ok` is characterised exactly (iff valid per the spec predicate) and tied to the spec "
+                "decoding. Complete in everything except the buffer length, hence category `other`, not `proof`. Whole-value decoding through "
+                "generic Visitor code (arbitrary signatures) is NOT decided; it rests on these contracts plus a paper lemma.",
+        "note": COMMON_TRUST + "UTF-8 validity is delegated to core::str::from_utf8 (executed, not specified beyond ASCII/0xFF); object-path and signature "
+                "grammar inside variants are checked on concrete instances only.",
+        "design_ref": "DESIGN.md §4 C03, §9",
+    },
+    "C04": {
+        "category": "other",
+        "technique": TECH_KANI + "; bounded-buffer; panic-freedom is the implicit obligation of every unit",
+        "text": "Reduced form: panic-freedom (no panic, overflow, out-of-bounds index, failed unwrap/expect) of the D-Bus leaf decoders. Every C03 unit "
+                "runs with NO precondition on the bytes (only the struct invariant pos <= len), and Kani turns every reachable panic site inside the "
+                "executed /repo functions into the unit's `no_panic` obligation. Bounded by the buffer length (5..16 bytes). NOT decided: GVariant "
+                "decoders, whole-decoder crash freedom over arbitrary signatures, allocation size, native stack depth, re-encoding.",
+        "note": COMMON_TRUST + "Same units as C03; arithmetic is machine arithmetic (overflow checks on).",
+        "design_ref": "DESIGN.md §4 C04, §9",
+    },
+    "C07": {
+        "category": "proof",
+        "technique": TECH_KANI,
+        "text": "ContainerDepths::{inc_structure,inc_array,inc_variant,inc_maybe,dec_*} are proved against the representation invariant "
+                "wf = (structures <= 32, arrays <= 32, total <= 64) for ALL counter states, in both feature configurations (default and gvariant): "
+                "Ok iff the incremented state is within the limits, exact new state, frame on the other counters, error kind names the exceeded "
+                "limit, dec is the exact inverse. Call-site units (bounded buffers, reported separately) show the D-Bus array/struct/variant "
+                "(de)serializer mechanisms change exactly one counter by one and restore it. The property is the lemma 'counters = nesting depth "
+                "and ADT contract => accept iff within 32/32/64'.",
+        "note": COMMON_TRUST + "The lemma that call sites compose to 'counter = nesting depth' for arbitrary values is a paper lemma; GVariant call sites are not under contract.",
+        "design_ref": "DESIGN.md §4 C07, §9",
+    },
+    "C10": {
+        "category": "other",
+        "technique": TECH_KANI + "; bounded string length",
+        "text": "Bounded contract proof: each validator (unique, well-known, interface/error, member name; object path) returns Ok iff an independent "
+                "byte-loop recogniser written from the specification accepts, for EVERY byte string (all 256 byte values) of length <= 6 (quick) / "
+                "<= 10 (thorough); TryFrom<&str> constructors agree with the validators (ASCII, N<=5); the 255/256-byte limit on concrete maximal "
+                "names with symbolic length 254..256; GUID = exactly 32 hex digits on a concrete template with 3 symbolic bytes and symbolic length "
+                "31..33 plus the other textual UUID forms as instances.",
+        "note": COMMON_TRUST + "uuid / winnow are executed, not assumed. Deserialize impls call try_from (read, not proved). Bound: string length.",
+        "design_ref": "DESIGN.md §4 C10, §9",
+    },
+    "C13": {
+        "category": "proof",
+        "technique": TECH_KANI,
+        "text": "The three generated decoders the property names are driven with serde's own value deserializers over ALL 256 byte codes "
+                "(loop-free, complete): FieldCode never fails and maps known codes to their variants; BitFlags<Flags> in PrimaryHeader accepts every "
+                "byte and drops unknown bits; message::Type decoding of unknown codes is a recorded known finding. The 'connection keeps "
+                "delivering' clause lives in the async reader loop and is not decided.",
+        "note": COMMON_TRUST + "serde value deserializers (U8Deserializer) are executed. One known finding (unknown message type is a header parse error) is "
+                "listed in known_findings.txt and excluded from the obligation count.",
+        "design_ref": "DESIGN.md §4 C13, §7, §9",
+    },
+    "C15": {
+        "category": "proof",
+        "technique": TECH_KANI,
+        "text": "Contract on PrimaryHeader::new with the process-wide SERIAL_NUM preset to ANY u32: serial != 0; serial = counter (or 1 when the "
+                "counter is 0); counter advanced by one ticket (two exactly when the first is 0); two consecutive calls from any counter value "
+                "return different serials (wrap-around included). Complete, sequential.",
+        "note": COMMON_TRUST + "UNCHECKED ASSUMPTION: AtomicU32::fetch_add hands out each ticket at most once under concurrency (Kani has no threads); the "
+                "schedule quantifier is discharged by that assumption plus the per-call contract.",
+        "design_ref": "DESIGN.md §4 C15, §9",
     },
 }
 
-# designed (DESIGN.md §4) but the units are not built yet in this commit
-NOT_BUILT = {p: "designed in DESIGN.md §4 but units not built yet in this commit (work in progress)" for p in
-             ["C02", "C03", "C04", "C05", "C06", "C07", "C08", "C10", "C12", "C13", "C15", "C23"]}
+# designed (DESIGN.md §4) but the units are not built: listed under not_applicable with that reason
+NOT_BUILT = {
+    "C02": "designed in DESIGN.md §4 (composed encode->decode harnesses + lemma over the C01/C03 contracts) but the composed units are not built; the C01 and C03 contracts are stated against the same spec functions, which is an argument, not a check, so the property is not claimed",
+    "C05": "designed in DESIGN.md §4 (GVariant mechanisms under --features gvariant) but the units are not built; not claimed",
+    "C06": "parser acceptance is out of reach (recursive winnow grammar does not finish at N<=4 under CBMC, Verus cannot process it); the formatting/length/equality units designed in DESIGN.md §4 are not built; not claimed",
+    "C08": "designed in DESIGN.md §4 (one harness per pair of scalar Value variants) but the units are not built; container values are out of reach (allocation + recursion); not claimed",
+    "C12": "whole-message parsing runs serde-derived Header/Fields decoding through Value and Data (intractable under CBMC, measured); the reduced FieldPos/PrimaryHeader::read units designed in DESIGN.md §4 are not built; not claimed",
+    "C23": "the percent codec goes through core::fmt + String (round trip did not finish at N<=3 in 15 min); the decode_hex/decode_percents units designed in DESIGN.md §4 are not built; not claimed",
+}
